@@ -16,7 +16,7 @@ Mechanisms: {json.dumps(p['anchors']['mechanism'])}
 
 YOUR SCRATCH COPY: create your own git worktree of the repository and work ONLY there:
     git -C /repo worktree add --detach {wt} HEAD
-Never edit anything under /repo itself, never look at or use anything under /verif (it is off limits for you), never commit anywhere. All builds and tests run inside {wt} (cargo is offline: always pass --offline; toolchain 1.90.0 is pinned). Use `CARGO_TARGET_DIR={wt}/target`. The machine is shared and busy: builds are slow, be patient, and build/test only what you need (e.g. `cargo nextest run --offline -p warp-core <filter>` or `cargo test --offline -p <crate>`; the full suite is `cargo nextest run --workspace --no-fail-fast --offline`, ~2400 tests — run at least the whole test suite of every crate you touched; eight tests are known to fail on the unchanged tree: seven in echo-wesley-gen::generation and warp-core::external_consumer_contract_fixture_tests::inverse_intent_resolves_one_admitted_transition_after_restart — ignore those).
+Never edit anything under /repo itself, never look at or use anything under /verif (it is off limits for you), never commit anywhere. All builds and tests run inside {wt} (cargo is offline: always pass --offline; toolchain 1.90.0 is pinned). Use `export CARGO_TARGET_DIR={wt}/target CARGO_PROFILE_DEV_DEBUG=0 CARGO_PROFILE_TEST_DEBUG=0 CARGO_BUILD_JOBS=6 CARGO_INCREMENTAL=0` in every shell (disk is scarce: no debug info, and do NOT build the whole workspace — build and test only the crates you touch and their direct dependents). The machine is shared and busy: builds are slow, be patient, and build/test only what you need (e.g. `cargo nextest run --offline -p warp-core <filter>` or `cargo test --offline -p <crate>`; do not run the full workspace suite yourself (I will); run the whole test suite of every crate you touched, e.g. `cargo nextest run --offline -p warp-core --no-fail-fast` (~1400 tests); eight tests are known to fail on the unchanged tree: seven in echo-wesley-gen::generation and warp-core::external_consumer_contract_fixture_tests::inverse_intent_resolves_one_admitted_transition_after_restart — ignore those).
 
 WHAT KIND OF CHANGE: a plausible bug a maintainer could introduce (an off-by-one, a check moved after the write it guards, a dropped field in a hash or comparison, a wrong ordering key, a missing rollback, an early return, acknowledging before a sync, a cache keyed too coarsely, …) in non-test source code. It must need something SPECIFIC to manifest — a particular interleaving or worker assignment, a crash or fault at a particular point, a multi-step sequence of operations, an unusual input, a boundary size, or two cooperating sites that each look fine alone — NOT something ordinary use or the existing tests expose at once. Keep the change small (a few lines, at most two sites). Do not touch tests, docs, Cargo files or anything named `verif`/`echo_verif` (verification hooks — leave them alone).
 
